@@ -141,7 +141,12 @@ func (c19) Gen(tier string, seed int64, emit func([]Ev)) {
 			}
 		case 1: // b differs from a in exactly one compared field
 			b = a
-			switch r.Intn(7) {
+			switch r.Intn(8) {
+			case 7: // only one of the two signals has a PTS (the time value itself is the same)
+				a.HasPTS, b.HasPTS = true, false
+				if r.Intn(2) == 0 {
+					a.HasPTS, b.HasPTS = false, true
+				}
 			case 0:
 				b.Eid = a.Eid + 1
 			case 1:
